@@ -13,6 +13,9 @@ macro_rules! std_set {
 }
 for_each_res_header!(std_set);
 
+#[derive(serde::Serialize)] #[serde(transparent)] struct AnyJson(Value);
+impl ohkami::openapi::Schema for AnyJson { fn schema() -> impl Into<ohkami::openapi::schema::SchemaRef> { ohkami::openapi::object() } }
+
 /// the response the operation history builds
 fn build(c: &Value) -> Response {
     let mut res = Response::new(Status::from(c["status"].as_u64().unwrap() as u16));
@@ -52,6 +55,30 @@ fn build(c: &Value) -> Response {
                 let status = res.status;
                 res = ohkami::IntoResponse::into_response(ohkami::sse::DataStream::<String>::new(move |mut s| async move { for m in msgs { s.send(m); } }));
                 res.status = status;
+            }
+            "typed" => {
+                // a typed responder as a handler returns it: ["typed", kind, status name, payload]; it starts the response (the case's status is its status)
+                use ohkami::typed::status as st;
+                use ohkami::format::{JSON, HTML};
+                use ohkami::IntoResponse;
+                let body = unhex(g(3));
+                macro_rules! with_value { ($b:expr) => { match g(2) {
+                    "OK" => st::OK($b).into_response(), "Created" => st::Created($b).into_response(), "MultipleChoice" => st::MultipleChoice($b).into_response(),
+                    "BadRequest" => st::BadRequest($b).into_response(), "NotFound" => st::NotFound($b).into_response(), "InternalServerError" => st::InternalServerError($b).into_response(),
+                    o => panic!("harness: typed status {o}") } } }
+                res = match g(1) {
+                    "string" => with_value!(string(body)),
+                    "str" => with_value!(leak_str(body)),
+                    "html" => with_value!(HTML(string(body))),
+                    "json" => with_value!(JSON(AnyJson(serde_json::from_slice::<Value>(&body).expect("harness: typed json needs JSON")))),
+                    "unit" => with_value!(()),
+                    "bare" => match g(2) { "Continue" => st::Continue.into_response(), "EarlyHints" => st::EarlyHints.into_response(), "Accepted" => st::Accepted.into_response(), "NoContent" => st::NoContent.into_response(),
+                                           "ResetContent" => st::ResetContent.into_response(), "NotModified" => st::NotModified.into_response(), o => panic!("harness: bare status {o}") },
+                    "redirect" => match g(2) { "MovedPermanently" => st::MovedPermanently::to(string(body)).into_response(), "Found" => st::Found::at(string(body)).into_response(),
+                                               "SeeOther" => st::SeeOther::at(string(body)).into_response(), "TemporaryRedirect" => st::TemporaryRedirect::to(string(body)).into_response(),
+                                               "PermanentRedirect" => st::PermanentRedirect::to(string(body)).into_response(), o => panic!("harness: redirect {o}") },
+                    o => panic!("harness: typed kind {o}"),
+                };
             }
             other => panic!("harness: unknown op {other}"),
         }
